@@ -11,6 +11,7 @@ THEOREMS = [_T + n for n in [
     "limits_enforced_header", "multipart_roundtrip", "multipart_roundtrip_refuted", "multipart_disposition_recovered",
     "multipart_trailing_backslash_fixed", "multipart_trailing_backslash_recovered", "limits_exact",
     "multipart_disposition2231_recovered", "multipart_roundtrip_2231", "limits_exact_2231",
+    "urlencoded_utf8_names_mojibake", "urlencoded_utf8_roundtrip_partial", "urlencoded_utf8_roundtrip_refuted",
     "multipart_inner_exceptions", "multipart_inner_unicode_error", "part_headers_never_keyerror", "parse_body_outcomes",
 ]]
 TRUSTED = [
@@ -30,7 +31,7 @@ ASSUMPTIONS = [
     "Content-Disposition parameter names contain no non-ASCII cased letters (see C43)",
 ]
 RULE = ("forms of 0-6 fields/files (binary contents, empty values, repeated names, quoted/escaped/non-ASCII names; control-character names "
-        "and filenames in the RFC 2231 form) encoded as multipart (quoted-string or RFC 2231 parameters) or urlencoded; every single-byte mutation of small bodies; arbitrary bodies and content "
+        "and filenames in the RFC 2231 form) encoded as multipart (quoted-string or RFC 2231 parameters) or urlencoded (names as latin-1 bytes, or any text as UTF-8); every single-byte mutation of small bodies; arbitrary bodies and content "
         "types; limits at count-1/count/count+1; every non-urlencoded case is also run through parse_multipart_form_data directly (result and "
         "exception type compared with the model's parseMultipart); non-trivial = a form with >=1 part parsed successfully, or a mutated body")
 EXHAUSTIVE = {"quick": False, "thorough": False}
@@ -47,7 +48,10 @@ CLAUSES = {
         "multipart_trailing_backslash_fixed / multipart_trailing_backslash_recovered evaluate the old witness; "
         "RFC 2231 parameters (name*=utf-8''pct): multipart_roundtrip_2231 (names/filenames ANY non-empty scalar-valued text, control "
         "characters included; same side condition), multipart_disposition2231_recovered (_parse_header level)",
-    "urlencoded forms are recovered exactly": "urlencoded_roundtrip, urlencoded_roundtrip_entry",
+    "urlencoded forms are recovered exactly": "urlencoded_roundtrip, urlencoded_roundtrip_entry (names sent as latin-1 bytes); names sent the standard "
+        "way, as UTF-8: urlencoded_utf8_roundtrip_partial (ASCII names) — the full clause is FALSE for non-ASCII names, "
+        "urlencoded_utf8_roundtrip_refuted / urlencoded_utf8_names_mojibake (known finding urlencoded/lossy/non-ascii-name-utf8: "
+        "parse_qs_bytes reads names as latin-1, documented)",
     "any other body succeeds or raises HTTPInputError, never another exception": "only_input_error, parse_body_outcomes (entry: result / "
         "HTTPInputError / model gives up); multipart_inner_exceptions + multipart_inner_unicode_error + part_headers_never_keyerror (what the "
         "catch-all has to catch: at the parse_multipart_form_data entry the only other exception type is UnicodeDecodeError, and it occurs); "
@@ -66,6 +70,7 @@ VALUES = [b"", b"v", b"hello world", b"\x00\xff\xfe", b"line1\r\nline2", b"--", 
           "é".encode(), b"--boundary", b"-", b"\r", b"\n", b"--\r\n"]
 BOUNDARIES = ["zZ9", "1234", "----WebKitFormBoundaryAbC123", "boundary", "b", "a'b", "x=y", "(+_,-./:?)", "B--", "--", "é", "a b", "\"", "q\"q",
               "0" * 70]
+U8_NAMES = ["a", "é", "名前", "😀", "a b", "x&y", "k=v", "ü%41", "\x7f", "\x80", "ÿ", "Ā", "+", "z" * 30]
 _FORBIDDEN = re.compile(r"[\x00-\x08\x0a-\x1f\x7f]")
 # names / filenames only the RFC 2231 form can carry (they travel percent-encoded): control characters, CR LF, DEL, NUL
 R_ONLY = ["a\nb", "\x00", "\r\n", "x\x7f", "\x1f;\"", "tab\there\n", "\x0b\x0c", "\x85\u2028", "'", "utf-8''%41", "\n"]
@@ -100,8 +105,10 @@ def _qb(bs):
     return "".join(chr(b) if (chr(b).isalnum() and b < 128) or chr(b) in "_.-~" else "+" if b == 32 else "%%%02X" % b for b in bs)
 
 
-def encode_urlencoded(fields):
-    return "&".join(_qb(n.encode("latin-1")) + "=" + _qb(bytes.fromhex(v)) for n, v in fields).encode("ascii")
+def encode_urlencoded(fields, enc="l1"):
+    """enc = "l1": names as latin-1 bytes (the only encoding parse_qs_bytes inverts); "u8": names as UTF-8 bytes (what browsers send)"""
+    codec = "utf-8" if enc == "u8" else "latin-1"
+    return "&".join(_qb(n.encode(codec)) + "=" + _qb(bytes.fromhex(v)) for n, v in fields).encode("ascii")
 
 
 # ----------------------------------------------------------------------------------------------- generators
@@ -217,7 +224,14 @@ def gen_cases(rng, tier):
             name = rng.choice(["a", "b", "a b", "é", "x&y", "k=v", "%41", "+", "", "a;b", "\xff"])
             val = rng.choice(VALUES) if rng.random() < 0.7 else bytes(rng.randrange(256) for _ in range(rng.randint(0, 12)))
             fields.append([name, val.hex()])
-        yield {"kind": "urlenc", "fields": fields, "ct": rng.choice(RAW_CT[7:9]), "ce": rng.random() < 0.03}
+        case = {"kind": "urlenc", "fields": fields, "ct": rng.choice(RAW_CT[7:9]), "ce": rng.random() < 0.03}
+        if rng.random() < 0.35:
+            # the standard encoding: names as percent-encoded UTF-8, any text (known finding: non-ASCII names come back as mojibake)
+            case["enc"] = "u8"
+            for f in fields:
+                if rng.random() < 0.5:
+                    f[0] = rng.choice(U8_NAMES)
+        yield case
     for _ in range(n_raw):
         k = rng.random()
         body = rng.choice(RAW_BODY)
@@ -253,7 +267,7 @@ def _body_ct(case):
     if case["kind"] == "form":
         return encode_multipart(case["form"], case["boundary"], case["parts"]), case["ct"]
     if case["kind"] == "urlenc":
-        return encode_urlencoded(case["fields"]), case["ct"]
+        return encode_urlencoded(case["fields"], case.get("enc", "l1")), case["ct"]
     return bytes.fromhex(case["body"]), case["ct"]
 
 
@@ -320,6 +334,10 @@ def _wire_parts(case):
     return [[n, fn, ct, bytes.fromhex(v)] for n, fn, ct, v in case["parts"]]
 
 
+def _formenc(case):
+    return "formenc8" if case.get("enc") == "u8" else "formenc"
+
+
 def model_requests(case, impl):
     body, ct = _body_ct(case)
     c = _cfgof(case)
@@ -327,7 +345,7 @@ def model_requests(case, impl):
     if case["kind"] == "form":
         out.append(line(ID, "encode", atom(case["form"]), case["boundary"].encode("utf-8"), _wire_parts(case)))
     if case["kind"] == "urlenc":
-        out.append(line(ID, "formenc", [[n, bytes.fromhex(v)] for n, v in case["fields"]]))
+        out.append(line(ID, _formenc(case), [[n, bytes.fromhex(v)] for n, v in case["fields"]]))
     else:
         out.append(line(ID, "multipart", c["enabled"], c["max_parts"], c["max_hdr"], _inner_boundary(case), body))
     return out
@@ -376,7 +394,7 @@ def spec_requests(case, impl):
     if case["kind"] == "form":
         return [line(ID, "expected", _wire_parts(case))]
     if case["kind"] == "urlenc":
-        return [line(ID, "formenc", [[n, bytes.fromhex(v)] for n, v in case["fields"]])]
+        return [line(ID, _formenc(case), [[n, bytes.fromhex(v)] for n, v in case["fields"]])]
     return []
 
 
@@ -435,7 +453,8 @@ def spec_violation(case, impl, replies):
         want = _py(replies[0])[1]
         want = [[n, vs] for n, vs in want]
         if r != [want, []]:
-            return "urlencoded form not recovered: got %r, expected %r" % (r, want)
+            u8 = case.get("enc") == "u8" and any(not n.isascii() for n, _v in case["fields"])
+            return "urlencoded form not recovered%s: got %r, expected %r" % (" (non-ASCII name sent as UTF-8)" if u8 else "", r, want)
     return None
 
 
@@ -451,6 +470,9 @@ def stats(case, impl):
     out = ["kind:" + case["kind"] + ("/mutant" if case.get("mutant_of") else "")]
     r = impl["r"]
     out.append("result:" + (r if isinstance(r, str) else "ok"))
+    if case["kind"] == "urlenc":
+        out.append("urlenc-names:" + ("latin-1" if case.get("enc") != "u8" else
+                                      "utf-8/ascii-only" if all(n.isascii() for n, _v in case["fields"]) else "utf-8/non-ascii"))
     if case["kind"] == "form":
         out.append("parts:%d" % len(case["parts"]))
         out.append("form:" + case["form"])
@@ -473,6 +495,8 @@ def signature(case, impl, why):
         return "limits/" + ("parts" if "max_parts" in why else "header")
     if "multipart form not recovered" in why:
         return "multipart/lossy/" + case.get("form", "?")
+    if "non-ASCII name sent as UTF-8" in why:
+        return "urlencoded/lossy/non-ascii-name-utf8"
     if "urlencoded" in why:
         return "urlencoded/lossy"
     return "other"
